@@ -25,7 +25,7 @@ def run(ctx):
     ctx.coverage['cycle_model'] = dict(stats, graph_transitions=nedges, graph_transitions_replayed=nvisited)
     # spec/PonyKeys.tla: the save order of a flush when nothing references anything (one statement per queued object, in
     # queue order): a flush the specification says succeeds must succeed
-    res, stats, found = keys_c14.run(ctx, 800 if quick else 8000, 4 if quick else 6, ctx.seed + 5, check_level=5 if quick else 8)
+    res, stats, found = keys_c14.run(ctx, 800 if quick else 8000, 6 if quick else 8, ctx.seed + 5, check_level=7 if quick else 9, qnull=False)
     keys_c14.report(ctx, 'C16', res, stats, found)
 
 
